@@ -45,7 +45,7 @@ PROPS = {
         'level': 'proof',
     },
     'C14': {
-        'modules': ['contracts.c14_expr'],
+        'modules': ['contracts.c14_expr', 'contracts.c14_literal'],
         'standins': ['expr_eval'],
         'trusted': PYVC_TRUST + ['ply builds the parse tree its grammar and precedence table define and calls one action per reduction',
                                  'CPython int(text, base) / str(int)'],
